@@ -24,6 +24,10 @@ META = dict(
 HARNESSES = []   # built in run(): needs the generated table
 
 
+def prebuild():
+    return _exe()
+
+
 def _exe():
     gen = os.path.join(build.BUILD, "gen")
     capigen.generate(os.path.join(gen, "capi_gen.inc"))
